@@ -1,0 +1,59 @@
+//go:build verif
+// +build verif
+
+package geometry
+
+// Hooks for the /verif correspondence harness (build tag "verif" only).
+// They export unexported entry points and a decision-site tracer; nothing
+// here is compiled into the default build.
+
+// verifTrace is set once, before any concurrent use, by the harness.
+var verifTrace bool
+var verifLastSite int
+
+// VerifEnableTrace switches the decision-site tracer on or off.
+func VerifEnableTrace(on bool) { verifTrace = on; verifLastSite = 0 }
+
+// VerifLastSite returns the last decision site recorded (0 = none).
+func VerifLastSite() int { return verifLastSite }
+
+func verifSite(n int) {
+	if verifTrace {
+		verifLastSite = n
+	}
+}
+
+func VerifRingContainsPoint(ring Ring, point Point, allowOnEdge bool) (bool, int) {
+	r := ringContainsPoint(ring, point, allowOnEdge)
+	return r.hit, r.idx
+}
+
+func VerifRingContainsSegment(ring Ring, seg Segment, allowOnEdge bool) bool {
+	return ringContainsSegment(ring, seg, allowOnEdge)
+}
+
+func VerifRingIntersectsSegment(ring Ring, seg Segment, allowOnEdge bool) bool {
+	return ringIntersectsSegment(ring, seg, allowOnEdge)
+}
+
+func VerifRingContainsRing(ring, other Ring, allowOnEdge bool) bool {
+	return ringContainsRing(ring, other, allowOnEdge)
+}
+
+func VerifRingIntersectsRing(ring, other Ring, allowOnEdge bool) bool {
+	return ringIntersectsRing(ring, other, allowOnEdge)
+}
+
+func VerifRingContainsLine(ring Ring, line *Line, allowOnEdge bool) bool {
+	return ringContainsLine(ring, line, allowOnEdge)
+}
+
+func VerifRingIntersectsLine(ring Ring, line *Line, allowOnEdge bool) bool {
+	return ringIntersectsLine(ring, line, allowOnEdge)
+}
+
+func VerifNewRing(points []Point, opts *IndexOptions) Ring { return newRing(points, opts) }
+
+func VerifProcessPoints(points []Point, closed bool) (bool, Rect, bool) {
+	return processPoints(points, closed)
+}
